@@ -50,6 +50,9 @@ pub fn seed(name: &str) -> Vec<Ev> {
         ],
         // dispute and penalty confirmed (by somebody else) before the tower holds any appointment
         "S9" => vec![mine(vec![TxName::D(1)]), Ev::External(TxName::P(1)), Ev::MineP(MineSel::Mempool)],
+        // the dispute is confirmed and a conflicting spend of its output sits in the node's mempool: the
+        // penalty bounces (-26) for as long as the node keeps that transaction
+        "S10" => vec![Ev::Register(1), mine(vec![TxName::D(1)]), Ev::External(TxName::PAlt(1))],
         _ => panic!("unknown seed {name}"),
     }
 }
@@ -92,6 +95,9 @@ pub fn run_models(run: &Run, models: Vec<(TowerModel, usize)>, total_budget: Dur
         all.push(("scripted-grid".to_owned(), st));
     }
     let n = searches.len().max(1) as u32;
+    // Shallow searches first: they finish well within their share and pass the rest on to the deep ones.
+    let mut searches = searches;
+    searches.sort_by_key(|(_, d)| *d);
     for (i, (m, depth)) in searches.into_iter().enumerate() {
         // Unused budget of earlier searches is passed on.
         let remaining = total_budget.saturating_sub(started.elapsed());
@@ -291,6 +297,7 @@ fn c01_alphabet(tier: Tier) -> Alphabet {
     a.mine_dispute = true;
     a.mine_dispute_and_penalty = true;
     a.externals = vec![TxName::P(1)];
+    a.evictions = vec![TxName::PAlt(1)];
     a.reorgs = vec![(1, Replacement::Same), (1, Replacement::Unconfirm), (2, Replacement::Delay)];
     a.restart = true;
     a.max_deviations = if tier == Tier::Quick { 1 } else { 2 };
@@ -299,7 +306,7 @@ fn c01_alphabet(tier: Tier) -> Alphabet {
 
 fn c01_models(tier: Tier, props: Vec<&'static str>) -> Vec<(TowerModel, usize)> {
     let mut models = Vec::new();
-    let seeds: &[(&str, usize, usize)] = &[("S0", 5, 7), ("S1", 4, 6), ("S2", 4, 6), ("S3", 4, 5), ("S9", 4, 6)];
+    let seeds: &[(&str, usize, usize)] = &[("S0", 5, 7), ("S1", 4, 6), ("S2", 4, 6), ("S3", 4, 5), ("S9", 4, 6), ("S10", 4, 6)];
     for (sd, dq, dt) in seeds {
         for txindex in if tier == Tier::Quick { vec![false] } else { vec![false, true] } {
             models.push((
@@ -493,6 +500,52 @@ pub fn c04(tier: Tier) -> i32 {
                         ));
                     }
                 }
+            }
+        }
+    }
+    // Several trackers hit by one reorg, one of them turning invalid (its penalty is replaced by a
+    // conflicting spend) while the others merely lose their confirmation: each of the others must still
+    // be re-submitted / re-recorded (nothing may stop at the one that disappears).
+    for extra in [0u32, 1, 2] {
+        for d in [1u8, 2, 3] {
+            for bulk in [false, true] {
+                if (d as u32) > extra + 2 {
+                    continue;
+                }
+                let add = |u, k| Ev::Add { user: u, disp: k, blob: Blob::Valid, tsd: 42 };
+                let mut sd = vec![Ev::Register(1), Ev::Register(2), add(1, 1), add(1, 2), add(1, 3), add(2, 1), add(2, 2), add(2, 3)];
+                sd.push(Ev::MineP(MineSel::Txs(vec![TxName::D(1), TxName::D(2), TxName::D(3)])));
+                sd.push(Ev::MineP(MineSel::Mempool));
+                if extra > 0 {
+                    sd.push(Ev::Advance(extra));
+                }
+                sd.push(if bulk { Ev::Reorg { depth: d, how: Replacement::ConflictPenalty1 } } else { Ev::ReorgP { depth: d, how: Replacement::ConflictPenalty1 } });
+                if bulk {
+                    sd.push(Ev::Poll);
+                }
+                sd.push(Ev::MineP(MineSel::Mempool));
+                sd.push(Ev::Advance(7));
+                sd.push(Ev::MineP(MineSel::Mempool));
+                sd.push(Ev::Advance(110));
+                let mut a = Alphabet::basic();
+                a.max_adds = 0;
+                a.max_registers_per_user = 0;
+                a.mine_dispute = false;
+                a.mine_mempool = false;
+                a.mine_empty = false;
+                grid += 1;
+                models.push((
+                    TowerModel {
+                        label: format!("C04/grid/six-trackers-one-penalty-conflicted/extra={extra}/d={d}/bulk={bulk}"),
+                        cfg: cfg(3, 1000, 6),
+                        seed: sd,
+                        alphabet: a,
+                        props: vec!["C04"],
+                        probe: false,
+                        forgery: None,
+                    },
+                    0,
+                ));
             }
         }
     }
